@@ -100,6 +100,37 @@ CHECKS["C18"] = dict(
          "instance and do not leak between instances, a clean call succeeds after any predecessor whatever the instance's age.",
     note="Calls on destroyed handles are not generated (a dangling pointer cannot be recognised by this API); the return code of exit__ is "
          "not judged; load_config has no call_data, only user_data is checked there.")
+CHECKS["C07"] = dict(
+    level="exploration", design="DESIGN.md §3 C07/C08",
+    technique=TECH + ": 1-3 scheduled client scripts operate on aliased hashmaps and key arrays under seeded slice lengths; a reference dictionary with object identity replays the recorded operator events (the executing instruction is the linearisation point) and is compared after every statement; equality laws probed on separately built value pairs",
+    text="Setup builds 3-5 roots (hashmaps and arrays, aliased through each other) in globals. 1-3 scheduled clients then issue generated "
+         "single-operator statements (hashmap set, get, deleteAt, in, count, keys, createHashMapFromArray, +; pushBack / set / deleteAt / resize / "
+         "reverse on arrays that are in use as keys) with keys from a pool built to collide: +0 and -0, strings differing in case, equal nested "
+         "arrays, live arrays that get mutated after insertion, code, hashmaps. Seeded slice lengths interleave the clients at every "
+         "instruction boundary. The simulator records the instruction that executes each statement's operator with the result rendered at "
+         "that instant, and an atomic dump of all roots after every statement. A reference dictionary (keys captured by value, values by "
+         "reference, copies independent) replays the operator events in history order; every result and every dump must agree. Before "
+         "the clients run, 6-36 law probes evaluate isEqualTo in both directions, == where defined, and hash consistency (a one-entry "
+         "hashmap looked up with the other value, in, count of a two-entry map) on pairs of separately constructed values; symmetry, "
+         "reflexivity, transitivity, agreement with structural equality and 'equal implies same key' are judged.",
+    note="Values containing nil/NaN and mutation of containers shared between a hashmap and its copy end exact judging for the run "
+         "(16-20 % of runs, usually late); crash, hang and escaping exceptions stay judged.")
+
+CHECKS["C08"] = dict(
+    level="exploration", design="DESIGN.md §3 C07/C08",
+    technique=TECH + ": 1-3 scheduled client scripts mutate a heap of aliased arrays/hashmaps under seeded slice lengths; a reference heap with object identity replays the recorded operator events and is compared with an atomic dump after every statement; self-insertion attempts through every inserting operator",
+    text="Same engine as C07 with the array operator mix: set, pushBack, pushBackUnique, append, deleteAt, deleteRange, resize, reverse, sort, "
+         "+a, a+b, a-b, select [i,n], select i, select {}, apply, count, find, in, isEqualTo, str, with in-range, equal-to-size, too-large "
+         "and negative indices, and attempts to insert a container into itself directly, through an intermediate array literal and through an "
+         "intermediate hashmap (also via hashmap set). Iteration constructs run with pure bodies (results judged unless another client "
+         "changed the array meanwhile) and with bodies that shrink or rewrite the iterated array (safety only). The reference heap applies "
+         "each operator at its recorded linearisation point: in-place operators change the one shared object (all aliases must show it), "
+         "fresh-result operators create new objects, refused insertions and rejected indices leave everything unchanged. A dump that "
+         "shows a cyclic structure where the reference heap has none is reported as cycle-created.",
+    note="Outcomes the statement leaves open end exact judging for the run (about 16 % of runs): fractional indices are not generated; "
+         "deleteRange arguments only where 'count' and 'last index' readings agree; sort of nested arrays; difference over nil elements; "
+         "mutating bodies.")
+
 CHECKS["C10"] = dict(
     level="fault_enumeration", design="DESIGN.md §3 C10",
     technique=TECH + ": stored source bytes cut or damaged at every point (all prefixes, every single-token deletion / duplication / opener replacement), include cycles over a scratch directory, delivered through every front-end entry point; result-xor-diagnostic, no crash, no hang, repeatable",
